@@ -82,8 +82,10 @@ def work(args):
                     epwork.strings_in_vec(vec, strings)
                     kwargs = {k: OPS.to_marker(v) for k, v in vec.items()}
                     ops.append({"op": "get_kwargs", "module": module, "kwargs": kwargs})
-                    ops.append({"op": "call", "module": module, "variant": "sync_detailed", "kwargs": kwargs, "auth": bool(ep.requires_security), "response": {"status": 508}})
-                    ops.append({"op": "call", "module": module, "variant": "asyncio_detailed", "kwargs": kwargs, "auth": bool(ep.requires_security), "response": {"status": 508}})
+                    # every third call is answered by a REDIRECT: the generated client does not follow redirects unless asked to - still exactly one request
+                    rsp = {"status": 307, "headers": {"location": "/elsewhere/after-redirect"}} if len(meta) % 3 == 2 else {"status": 508}
+                    ops.append({"op": "call", "module": module, "variant": "sync_detailed", "kwargs": kwargs, "auth": bool(ep.requires_security), "response": rsp})
+                    ops.append({"op": "call", "module": module, "variant": "asyncio_detailed", "kwargs": kwargs, "auth": bool(ep.requires_security), "response": rsp})
                     meta.append((module, ep, cep, vec))
             # document-level body plans: what body_from_data decided for each declared media type vs Parse.body_plan
             from openapi_python_client.utils import get_content_type
